@@ -92,7 +92,7 @@ def build_container(payload, meta, tr, extra_sections=()):
         for i, (n, d) in enumerate(payload.items()):
             if n == '.eh_frame':
                 secs.append((n, d, 0))
-            elif which == 'all' or chosen(n, i) or n == '.debug_info':
+            elif which == 'all' or (n == '.debug_info' and not tr.get('info_plain')) or (n != '.debug_info' and chosen(n, i)):
                 secs.append(('.z' + n[1:], zdebug_section(d, tr.get('level', 6), tr.get('bad_size') and max(0, len(d) + tr['bad_size']) if (n == '.debug_info' or not tr.get('bad_size')) else None), 0))
             else:
                 secs.append((n, d, 0))       # mixed naming (incompressible section left alone)
@@ -218,7 +218,7 @@ def compare_transforms(ctx, payload, meta, transforms, case, ref=None, what='gen
         ctx.fail('%s|original-vs-plain-container|%s' % (what, ','.join(dump.diff_keys(ref, d0))), 'dump of the original file differs from the dump of its payload in a plain container', case)
     n = 0
     for tr in transforms:
-        name = tr['t'] + ('/' + tr['which'] if tr.get('which') and tr['which'] != 'all' else '') + ('/inner=' + tr['inner']['t'] if tr.get('inner') else '')
+        name = tr['t'] + ('/' + tr['which'] if tr.get('which') and tr['which'] != 'all' else '') + ('/info-plain' if tr.get('info_plain') else '') + ('/inner=' + tr['inner']['t'] if tr.get('inner') else '')
         try:
             c = build_container(payload, meta, tr)
             ef = open_container(c)
@@ -410,7 +410,11 @@ def rand_transforms(ch, allow_link=True):
         if t == 'gabi':
             out.append({'t': 'gabi', 'which': ch.choice(['all', 'all', 'some']), 'phase': ch.int(0, 1), 'level': ch.int(0, 9), 'at_eof': ch.bool(0.3)})
         elif t == 'zdebug':
-            out.append({'t': 'zdebug', 'which': 'all', 'level': ch.int(0, 9), 'at_eof': ch.bool(0.3)})
+            if ch.bool(0.4):
+                # mixed naming: GNU tools rename only the sections that shrink (either .debug_info or its siblings may stay plain)
+                out.append({'t': 'zdebug', 'which': 'some', 'phase': ch.int(0, 1), 'info_plain': ch.bool(), 'level': ch.int(0, 9)})
+            else:
+                out.append({'t': 'zdebug', 'which': 'all', 'level': ch.int(0, 9), 'at_eof': ch.bool(0.3)})
         else:
             out.append({'t': 'link', 'crc_ok': True, 'inner': ch.choice([{'t': 'plain'}, {'t': 'gabi', 'which': 'all', 'level': 6}, {'t': 'zdebug', 'which': 'all', 'level': 1}]),
                         'fname': ch.choice([b'x.debug', b'a', b'ab', b'abc', b'abcd', b'dir/file.debug']), 'keep_eh': ch.bool()})
@@ -479,7 +483,8 @@ def sweep(tier):
             cases.append({'k': 'presence', 'names': list(names), 'cls': (32, 64)[k % 2], 'le': bool((k // 2) % 2)})
     # corpus x transforms
     files = corpus_files()
-    fixed = [{'t': 'gabi', 'which': 'all', 'level': 6}, {'t': 'gabi', 'which': 'some', 'phase': 1, 'level': 1, 'at_eof': True}, {'t': 'zdebug', 'which': 'all', 'level': 9},
+    fixed = [{'t': 'zdebug', 'which': 'some', 'phase': 0, 'info_plain': True, 'level': 6}, {'t': 'zdebug', 'which': 'some', 'phase': 1, 'level': 6},
+             {'t': 'gabi', 'which': 'all', 'level': 6}, {'t': 'gabi', 'which': 'some', 'phase': 1, 'level': 1, 'at_eof': True}, {'t': 'zdebug', 'which': 'all', 'level': 9},
              {'t': 'link', 'crc_ok': True, 'inner': {'t': 'plain'}, 'fname': b'f.debug', 'keep_eh': True},
              {'t': 'link', 'crc_ok': True, 'inner': {'t': 'gabi', 'which': 'all', 'level': 3}, 'fname': b'abc'},
              {'t': 'link', 'crc_ok': False, 'crc_xor': 1, 'fname': b'f.debug'},
@@ -503,13 +508,15 @@ def sweep(tier):
     for i in range(6):
         info = c04.build(ch, 'quick')
         cases.append({'k': 'gen', 'cls': (32, 64)[i % 2], 'le': info['le'], 'info': info,
-                      'transforms': [{'t': 'zdebug', 'which': 'some', 'phase': i % 2, 'level': 6}, {'t': 'gabi', 'which': 'all', 'level': 0}, {'t': 'zdebug', 'which': 'all', 'level': 0}]})
+                      'transforms': [{'t': 'zdebug', 'which': 'some', 'phase': i % 2, 'level': 6}, {'t': 'zdebug', 'which': 'some', 'phase': i % 2, 'info_plain': True, 'level': 6},
+                                     {'t': 'zdebug', 'which': 'some', 'phase': (i + 1) % 2, 'info_plain': True, 'level': 1},
+                                     {'t': 'gabi', 'which': 'all', 'level': 0}, {'t': 'zdebug', 'which': 'all', 'level': 0}]})
     return cases
 
 
 def floors(ctx):
     c = ctx.counters
-    need = ['transform.gabi', 'transform.gabi/some', 'transform.zdebug', 'transform.link/inner=plain', 'transform.link/inner=gabi', 'reject.crc', 'reject.size.gabi',
+    need = ['transform.gabi', 'transform.gabi/some', 'transform.zdebug', 'transform.zdebug/some', 'transform.zdebug/some/info-plain', 'transform.link/inner=plain', 'transform.link/inner=gabi', 'reject.crc', 'reject.size.gabi',
             'reject.size.zdebug', 'presence.cell', 'corpus.file', 'gen.payload', 'sup.altlink.DW_FORM_GNU_strp_alt', 'sup.debug_sup.DW_FORM_strp_sup']
     out = ['no case with ' + k for k in need if c[k] == 0]
     if c['corpus.file'] < 20:
